@@ -275,9 +275,12 @@ func init() {
 				return ok(e)
 			}
 		}
-		// anything else: an opaque, unconstrained encoding (never decoded by the encoded code)
+		// anything else: an opaque, unconstrained encoding (never decoded by the encoded code);
+		// the marshalled value is remembered so a harness can inspect what was encoded
 		ex.H.noteStub("encoding/json.Marshal(opaque:" + typeKey(t) + ")")
-		return ok(tt.Var("json.opaque."+typeKey(t), SString))
+		ov := tt.Var("json.opaque."+typeKey(t), SString)
+		ex.W.marshalledAny[ov.id] = iv
+		return ok(ov)
 	}
 
 	intercepts["encoding/json.Unmarshal"] = func(ex *Exec, fr *Frame, args []Value, site ssa.Instruction) Value {
@@ -359,6 +362,9 @@ func (ex *Exec) jsonUnmarshal(data *BytesV, dst *IfaceV) Value {
 				ex.store(p, &PtrV{typ: et})
 				return ex.opaqueErr("json: cannot unmarshal into " + key)
 			}
+			ex.addPC(tt.UF("jvalid_any", SBool, s))
+			// the JSON text null decodes to a nil pointer for every pointer destination
+			ex.addPC(tt.Eq(isNull, tt.Eq(s, tt.Str("null"))))
 			if ex.branch(isNull, "json-null-"+key) {
 				ex.store(p, &PtrV{typ: et})
 				return nilErr()
